@@ -96,6 +96,59 @@ def collect_problems(rep, observations):
             rep.violation(sig, {"text": text, "toks": o["toks"]}, "parse_op(%r): %s" % (text, p))
 
 
+class _Shaped:
+    def __init__(self, shape):
+        self.shape = shape
+
+
+def foreign_text_probes(rep):
+    """'no operation ever fails with a syntax error about text the caller did not write': einx re-parses text it
+    generates itself from shapes and keyword sizes.  Calls with syntactically valid descriptions and high rank, long
+    lengths, long size vectors, and numpy print options that change how arrays are rendered must never end in SyntaxError
+    (or an internal exception); any other documented outcome is fine."""
+    import numpy as np
+    import einx
+    internal = (AssertionError, NameError, KeyError, IndexError, AttributeError, RecursionError, UnboundLocalError, NotImplementedError)
+    probes = []
+    for r in (8, 20, 33, 38, 45, 64):
+        probes.append(("solve_shapes('a...', rank %d)" % r, lambda r=r: einx.solve_shapes("a...", _Shaped((1,) * r))))
+        probes.append(("matches('b a...', rank %d)" % r, lambda r=r: einx.matches("b a...", _Shaped((2,) + (3,) * (r - 1)))))
+        probes.append(("solve_axes('(a b)...', rank %d, b=[1]*%d)" % (r, r), lambda r=r: einx.solve_axes("(a b)...", _Shaped((2,) * r), b=[1] * r)))
+        probes.append(("solve_axes('(a b)...', rank %d, b=array)" % r, lambda r=r: einx.solve_axes("(a b)...", _Shaped((2,) * r), b=np.ones(r, dtype=np.int64))))
+    for digits in (6, 12, 18):
+        n = int("1" + "23456789012345678"[: digits - 1])
+        probes.append(("solve_shapes(8 axes of %d digits)" % digits, lambda n=n: einx.solve_shapes("a b c d e f g h", _Shaped((n,) * 8))))
+        probes.append(("solve_axes('(a 2) b...', %d digits)" % digits, lambda n=n: einx.solve_axes("(a 2) b...", _Shaped((2 * n,) + (n,) * 6))))
+    for r in (12, 24, 31):
+        probes.append(("id('a... -> a...', rank %d)" % r, lambda r=r: einx.id("a... -> a...", np.zeros((1,) * r))))
+        probes.append(("sum('[a]...', rank %d)" % r, lambda r=r: einx.sum("[a]...", np.zeros((1,) * r))))
+        probes.append(("id('(a b)... -> a... b...', rank %d, b=tuple)" % r, lambda r=r: einx.id("(a b)... -> a... b...", np.zeros((2,) * r)[tuple([slice(0, 1)] * (r - 6))], b=(1,) * r)))
+    saved = np.get_printoptions()
+    results = []
+    try:
+        for opts in ({}, {"linewidth": 20}, {"threshold": 3, "edgeitems": 1}, {"precision": 1, "linewidth": 40, "threshold": 5}):
+            np.set_printoptions(**{**saved, **opts})
+            for label, fn in probes:
+                rep.evaluations += 1
+                try:
+                    fn()
+                    out = "ok"
+                except einx.errors.SyntaxError as e:
+                    out = "SyntaxError"
+                    results.append((label, opts, "SyntaxError", str(e)[:300]))
+                except internal as e:
+                    out = type(e).__name__
+                    results.append((label, opts, type(e).__name__, str(e)[:300]))
+                except Exception as e:
+                    out = type(e).__name__
+    finally:
+        np.set_printoptions(**saved)
+    rep.extra["foreign_text_probes"] = len(probes) * 4
+    for label, opts, cls, msg in results:
+        rep.violation({"kind": "syntax-error-about-text-the-caller-did-not-write" if cls == "SyntaxError" else "internal-exception", "cls": cls, "probe": label.split("(")[0], "printoptions": bool(opts)},
+                      {"text": label, "printoptions": opts}, "%s with numpy print options %s: %s: %s" % (label, opts or "default", cls, msg))
+
+
 def run(tier):
     rep = common.Report("C12", tier)
     rep.rule = ("all token sequences up to the length bound over {a, b, 0, 1, $, ( ) [ ] ... -> , + space} in the lexer's image "
@@ -136,6 +189,7 @@ def run(tier):
     obs2v = [o for o in obs2 if not any(t.isdigit() and t not in known_nums for t in o["toks"])]
     acc2 = validate(rep, obs2v, names, nums, ["$"], "rand")
     rep.validated += acc2
+    foreign_text_probes(rep)
     rep.extra["enumerated_strings"] = len(seqs)
     rep.extra["random_strings"] = len(rnd)
     rep.extra["accepted_strings"] = sum(1 for o in obs if o["ok"])
